@@ -22,14 +22,29 @@ def check(tier):
     cases = res.printed("CASE")
     if not cases:
         raise ToolError("model produced no cases")
-    # the whole space is small (about 2*10^4 cases): both tiers replay all of it
+    # random union / intersection / serial combinations of two ranges (TLC simulation mode)
+    n = 1500 if tier == "quick" else 20000
+    sim = core.tlc("mc/MC_C06.tla", "mc/MC_C06_sim.cfg", workers=4 if tier == "quick" else 16, simulate=f"num={n}", depth=10,
+                   tlcseed=core.seed(), timeout=1800)
+    seen, simcases = set(), []
+    for c in sim.printed("CASE"):
+        key = json.dumps(c, sort_keys=True)
+        if key not in seen:
+            seen.add(key)
+            simcases.append(c)
+    run.cov["simulated_set_operation_cases"] = len(simcases)
+    n_exhaustive = len(cases)
+    cases = cases + simcases
+    # the exhaustive space is small (about 2*10^4 cases): both tiers replay all of it
     events = drive_and_validate(run, cases, shards=8 if tier == "quick" else 16)
     run.cov["evaluations"] = len(cases)
+    run.cov["exhaustive_cases"] = n_exhaustive
     run.cov["distinct_nontrivial"] = len({e["asn"].split("::=", 1)[1] for e in events if e["status"] == "ok"})
     run.cov["exhaustive"] = True
     run.cov["rule"] = ("TLC enumerates every (lower, upper) pair with lower <= upper from the 53-point boundary set x extension "
                        "marker x position {assignment, component, SEQUENCE OF element, constrained reference, value assignment, "
-                       "DEFAULT} x {range, single-value form} x assigned value {lower, upper}; non-trivial = compiled Ok without "
+                       "DEFAULT} x {range, single-value form} x assigned value {lower, upper} (exhaustive), plus TLC-simulated "
+                       "union / intersection / serial combinations of two such ranges (seeded by VERIF_SEED); non-trivial = compiled Ok without "
                        "warning for the definition; distinct by rendered ASN.1")
     step = max(1, len(events) // 6)
     run.cov["samples"] = [{"asn": e["asn"], "observed_type": e["ty"], "literal_type": e["lit_ty"], "model_type": c["ty"]}
@@ -47,7 +62,7 @@ def check(tier):
 def replay(payload):
     run = Run("C06", "quick")
     ev = payload["event"]
-    case = {k: ev[k] for k in ("lo", "hi", "ext", "pos", "form", "val")}
+    case = {k: ev[k] for k in ("lo", "hi", "ext", "pos", "form", "val", "op", "lo2", "hi2")}
     events = drive_and_validate(run, [case], shards=1)
     print("input:   ", events[0]["asn"])
     print("observed:", {k: events[0][k] for k in ("status", "ty", "haslit", "lit_pt", "lit_ty")})
